@@ -332,7 +332,7 @@ Record StepFacts (k : kind) (st : state) (o : op) (st' : state) (ev : list event
   sf_cur : cont_op o = true -> s_cur st' = s_cur st;
   sf_other : cont_op o = true -> other st' = other st;
   sf_nodes : cont_op o = true -> node_step k (may_assign k o) (s_nid st) ev (elems (sel st)) (elems (sel st'));
-  sf_lost : cont_op o = true -> removed_ok o (elems (sel st)) (elems (sel st')) = true }.
+  sf_lost : cont_op o = true -> removed_ok k o (elems (sel st)) (elems (sel st')) = true }.
 
 Lemma node_step_ext k A B nid ev l l' :
   (forall x, A x = true -> B x = true) -> node_step k A nid ev l l' -> node_step k B nid ev l l'.
@@ -346,7 +346,7 @@ Lemma facts_set_sel k st o c' ser' nid' ev :
   PInv c' (other st) ser' nid' -> shape k c' -> (s_ser st <= ser')%nat -> (s_nid st <= nid')%nat ->
   Forall (des_ok (elems (sel st))) ev -> (is_pool k = true -> Forall pool_ok ev) -> (o <> ODestroy -> Forall not_free ev) ->
   node_step k (may_assign k o) (s_nid st) ev (elems (sel st)) (elems c') ->
-  removed_ok o (elems (sel st)) (elems c') = true ->
+  removed_ok k o (elems (sel st)) (elems c') = true ->
   StepFacts k st o (set_sel st c' ser' nid') ev.
 Proof.
   intros HI Hp Hs Hser Hnid Hd Hpool Hfree Hns Hlost.
@@ -379,12 +379,29 @@ Proof.
   - unfold removed_ok. rewrite Hb, (lost_insert _ _ _ _ _ _ _ _ _ _ _ Hs E). reflexivity.
 Qed.
 
+Lemma c_remove_at_elems pos c c' ev nd :
+  nth_error (elems c) pos = Some nd -> c_remove_at pos c = (c', ev) -> elems c' = remove_at pos (elems c).
+Proof.
+  intros En E. unfold c_remove_at in E. rewrite En in E. injection E as <- _. unfold elems. cbn [c_body].
+  destruct (c_body c) as [l|t|l hd]; cbn [elems_of]; auto. apply remove_rank_inorder.
+Qed.
+
+Lemma missing_mid_sub l1 nd l2 m : In m (missing (l1 ++ nd :: l2) (l1 ++ l2)) -> m = nd.
+Proof.
+  rewrite missing_app. change (nd :: l2) with ([nd] ++ l2). rewrite missing_app.
+  rewrite (missing_none l1), (missing_none l2).
+  - cbn [app]. rewrite app_nil_r. unfold missing. cbn [filter]. destruct (negb _); cbn; intuition.
+  - intros p Hp. exists p. split; auto. apply in_or_app. auto.
+  - intros p Hp. exists p. split; auto. apply in_or_app. auto.
+Qed.
+
 Lemma facts_remove k st o pos c' ev :
   Inv k st -> o <> ODestroy -> removal_budget o = Some 1%nat ->
+  (forall nd, nth_error (elems (sel st)) pos = Some nd -> takes k o (elems (sel st)) nd = true) ->
   c_remove_at pos (sel st) = (c', ev) ->
   StepFacts k st o (set_sel st c' (s_ser st) (s_nid st)) ev.
 Proof.
-  intros HI Hno Hb E. destruct (Inv_sel _ _ HI) as (Hp & Hs & Hso).
+  intros HI Hno Hb Htk E. destruct (Inv_sel _ _ HI) as (Hp & Hs & Hso).
   pose proof (PInv_remove _ _ _ _ _ _ _ _ Hs Hp E) as Hp'.
   destruct (c_remove_at_effect _ _ _ _ _ Hs E) as (Hs' & Hev).
   assert (Hev' : ev = [] \/ exists nd, In nd (elems (sel st)) /\ ev = [EDestroy (n_id nd) (n_slot nd)]).
@@ -395,7 +412,11 @@ Proof.
   - intros _. destruct Hev' as [->|(nd & Hin & ->)]; repeat constructor.
   - intros _. destruct Hev' as [->|(nd & Hin & ->)]; repeat constructor.
   - eapply node_step_remove; eauto.
-  - unfold removed_ok. rewrite Hb. apply Nat.leb_le. eapply lost_remove; eauto.
+  - unfold removed_ok. rewrite Hb. apply andb_true_iff. split; [apply Nat.leb_le; eapply lost_remove; eauto|].
+    destruct (nth_error (elems (sel st)) pos) as [nd|] eqn:En.
+    + rewrite (c_remove_at_elems _ _ _ _ _ En E). destruct (remove_at_split pos nd _ En) as (l1 & l2 & E1 & E2 & _).
+      rewrite E2. apply forallb_forall. intros m Hm. rewrite E1 in Hm at 1. apply missing_mid_sub in Hm. subst m. apply Htk. reflexivity.
+    + unfold c_remove_at in E. rewrite En in E. injection E as <- _. rewrite missing_refl. reflexivity.
 Qed.
 
 Lemma c_assign_eq k src c ser nid :
@@ -420,11 +441,21 @@ Proof.
     injection E as <- <-. eapply facts_insert; eauto. intros x. apply may_assign_insert.
   - destruct (c_insert k pos key v (sel st) (s_ser st) (s_nid st)) as [[[c' ser'] nid'] ev'] eqn:Ei.
     injection E as <- <-. eapply facts_insert; eauto. intros x. apply may_assign_insert.
-  - destruct (c_remove_at pos (sel st)) as [c' ev'] eqn:Er. injection E as <- <-. eapply facts_remove; eauto. discriminate.
-  - destruct (c_remove_at 0 (sel st)) as [c' ev'] eqn:Er. injection E as <- <-. eapply facts_remove; eauto. discriminate.
-  - destruct (c_remove_at (length (elems (sel st)) - 1) (sel st)) as [c' ev'] eqn:Er. injection E as <- <-. eapply facts_remove; eauto. discriminate.
-  - destruct (find_pos k key (sel st)) as [i|].
-    + destruct (c_remove_at i (sel st)) as [c' ev'] eqn:Er. injection E as <- <-. eapply facts_remove; eauto. discriminate.
+  - destruct (c_remove_at pos (sel st)) as [c' ev'] eqn:Er. injection E as <- <-. eapply facts_remove; eauto; [discriminate|].
+    intros nd En. cbn [takes]. rewrite En. apply Nat.eqb_refl.
+  - destruct (c_remove_at 0 (sel st)) as [c' ev'] eqn:Er. injection E as <- <-. eapply facts_remove; eauto; [discriminate|].
+    intros nd En. cbn [takes]. destruct (elems (sel st)); [discriminate En|]. injection En as ->. apply Nat.eqb_refl.
+  - destruct (c_remove_at (length (elems (sel st)) - 1) (sel st)) as [c' ev'] eqn:Er. injection E as <- <-. eapply facts_remove; eauto; [discriminate|].
+    intros nd En. cbn [takes]. rewrite En. apply Nat.eqb_refl.
+  - destruct (find_pos k key (sel st)) as [i|] eqn:Efp.
+    + destruct (c_remove_at i (sel st)) as [c' ev'] eqn:Er. injection E as <- <-. eapply facts_remove; eauto; [discriminate|].
+      intros nd En. cbn [takes]. unfold find_pos, shape, elems in *. destruct (c_body (sel st)) as [l|t|l hd]; cbn [elems_of] in En.
+      * destruct Hs as [-> | ->]; cbn [is_pool] in Efp; [|discriminate Efp].
+        destruct (find_index_nth _ _ _ Efp) as (x & Hx & Hfx). rewrite En in Hx. injection Hx as <-. exact Hfx.
+      * destruct (find_rank_some _ _ _ _ Efp) as (x & Hx & Hkx). rewrite En in Hx. injection Hx as <-.
+        destruct Hs as [-> | ->]; apply Z.eqb_eq; exact Hkx.
+      * destruct (h_find_some _ _ _ _ Efp) as (x & Hx & Hkx). rewrite En in Hx. injection Hx as <-.
+        destruct Hs as [-> |[-> | ->]]; apply Z.eqb_eq; exact Hkx.
     + injection E as <- <-. apply facts_noop. exact HI.
   - (* clear *)
     destruct (c_clear (sel st)) as [c' ev'] eqn:Ec. injection E as <- <-.
